@@ -81,7 +81,6 @@ use std::cell::Cell;
 use std::cmp::{max, min};
 use std::collections::{BTreeSet, HashMap};
 use std::rc::Rc;
-use unicode_width::UnicodeWidthStr;
 
 use std::io;
 use std::io::Write;
@@ -736,7 +735,7 @@ impl RenderNode {
                     Ul(_) => decorator.unordered_item_prefix(),
                     _ => unreachable!(),
                 };
-                let prefix_width = UnicodeWidthStr::width(prefix.as_str());
+                let prefix_width = prefix_width(prefix.as_str());
                 let mut size = v
                     .iter()
                     .map(recurse)
@@ -764,7 +763,7 @@ impl RenderNode {
                 result
             }
             Header(level, ref v) => {
-                let prefix_size = decorator.header_prefix(level).len();
+                let prefix_size = prefix_width(&decorator.header_prefix(level));
                 let mut size = v
                     .iter()
                     .map(recurse)
@@ -2037,7 +2036,7 @@ fn do_render_node<T: Write, D: TextDecorator>(
         Header(level, children) => {
             let prefix = renderer.header_prefix(level);
             let prefix_size = size_estimate.prefix_size;
-            debug_assert!(prefix.len() == prefix_size);
+            debug_assert!(prefix_width(&prefix) == prefix_size);
             let min_width = size_estimate.min_width;
             let inner_width = min_width.saturating_sub(prefix_size);
             let sub_builder =
@@ -2063,10 +2062,11 @@ fn do_render_node<T: Write, D: TextDecorator>(
         }
         BlockQuote(children) => {
             let prefix = renderer.quote_prefix();
-            debug_assert!(size_estimate.prefix_size == prefix.len());
-            let inner_width = size_estimate.min_width - prefix.len();
+            let prefix_len = prefix_width(&prefix);
+            debug_assert!(size_estimate.prefix_size == prefix_len);
+            let inner_width = size_estimate.min_width - prefix_len;
             let sub_builder =
-                renderer.new_sub_renderer(renderer.width_minus(prefix.len(), inner_width)?)?;
+                renderer.new_sub_renderer(renderer.width_minus(prefix_len, inner_width)?)?;
             renderer.push(sub_builder);
             pending2(children, move |renderer: &mut TextRenderer<D>, _| {
                 let sub_builder = renderer.pop();
@@ -2080,7 +2080,7 @@ fn do_render_node<T: Write, D: TextDecorator>(
         }
         Ul(items) => {
             let prefix = renderer.unordered_item_prefix();
-            let prefix_len = prefix.len();
+            let prefix_len = prefix_width(&prefix);
 
             TreeMapResult::PendingChildren {
                 children: items,
@@ -2098,7 +2098,7 @@ fn do_render_node<T: Write, D: TextDecorator>(
                 postfn: Some(Box::new(move |renderer: &mut TextRenderer<D>, _| {
                     let sub_builder = renderer.pop();
 
-                    let indent = " ".repeat(prefix.len());
+                    let indent = " ".repeat(prefix_len);
 
                     renderer.append_subrender(
                         sub_builder,
@@ -2115,10 +2115,10 @@ fn do_render_node<T: Write, D: TextDecorator>(
             let min_number = start;
             // Assumption: num_items can't overflow isize.
             let max_number = start.saturating_add((num_items as i64) - 1);
-            let prefix_width_min = renderer.ordered_item_prefix(min_number).len();
-            let prefix_width_max = renderer.ordered_item_prefix(max_number).len();
+            let prefix_width_min = prefix_width(&renderer.ordered_item_prefix(min_number));
+            let prefix_width_max = prefix_width(&renderer.ordered_item_prefix(max_number));
             let prefix_width = max(prefix_width_min, prefix_width_max);
-            let prefixn = format!("{: <width$}", "", width = prefix_width);
+            let prefixn = " ".repeat(prefix_width);
             let i: Cell<_> = Cell::new(start);
 
             TreeMapResult::PendingChildren {
@@ -2136,8 +2136,9 @@ fn do_render_node<T: Write, D: TextDecorator>(
                 })),
                 postfn: Some(Box::new(move |renderer: &mut TextRenderer<D>, _| {
                     let sub_builder = renderer.pop();
-                    let prefix1 = renderer.ordered_item_prefix(i.get());
-                    let prefix1 = format!("{: <width$}", prefix1, width = prefix_width);
+                    let mut prefix1 = renderer.ordered_item_prefix(i.get());
+                    let pad = prefix_width.saturating_sub(self::prefix_width(&prefix1));
+                    prefix1.push_str(&" ".repeat(pad));
 
                     renderer.append_subrender(
                         sub_builder,
@@ -2891,7 +2892,17 @@ fn calc_ol_prefix_size<D: TextDecorator>(start: i64, num_items: usize, decorator
     let max_number = start.saturating_add((num_items as i64) - 1);
 
     // This assumes that the decorator gives the same width as default.
-    let prefix_width_min = decorator.ordered_item_prefix(min_number).len();
-    let prefix_width_max = decorator.ordered_item_prefix(max_number).len();
+    let prefix_width_min = prefix_width(&decorator.ordered_item_prefix(min_number));
+    let prefix_width_max = prefix_width(&decorator.ordered_item_prefix(max_number));
     max(prefix_width_min, prefix_width_max)
+}
+
+/// The display width of a decorator-supplied prefix (the sum of the widths of
+/// its characters, the same measure the renderer uses for lines).
+fn prefix_width(prefix: &str) -> usize {
+    use unicode_width::UnicodeWidthChar;
+    prefix
+        .chars()
+        .map(|c| UnicodeWidthChar::width(c).unwrap_or(0))
+        .sum()
 }
